@@ -40,7 +40,7 @@ TRUSTED = [
     ("G-intersects", "a.intersects(b) / shapely.intersects_xy(a, x, y): the two point sets share a point / (x, y) is a point of a"),
     ("G-bounds", "g.bounds = (minx, miny, maxx, maxy) encloses every point of g"),
     ("G-disc-polygon", "the polygon of a CircularRegion is identified with the exact disc (resolution -> infinity)"),
-    ("N-norm", "numpy.linalg.norm(a) without axis = sqrt of the sum of ALL squared entries (one scalar); with axis=1 on an (n,3) array the n row norms; the norm is a function of its argument and even (|-v| = |v|)"),
+    ("N-norm", "numpy.linalg.norm(a) without axis = sqrt of the sum of ALL squared entries (one scalar); with axis=1 on an (n,3) array the n row norms; the norm is a function of its argument and |a - b| = |b - a|"),
     ("N-argmin", "numpy.argmin of a scalar is 0; of a 1-D array the first index of a minimal entry"),
     ("N-broadcast", "array - vector subtracts the vector from every row; scalar * array scales every entry; array[i] is row i"),
     ("T-ray", "mesh.ray.intersects_location(origins, directions, multiple_hits=False) returns the first hit of each ray that hits the mesh, in the order of the rays; a hit of ray (o, d) is o + t d with t >= 0"),
@@ -790,6 +790,14 @@ def _map(A, f):
     return NDArr(A.shape, [[f(x) for x in r] for r in A.data])
 
 
+def _norm_key(I, xs):
+    """Identity of an argument list: the z3 term ids; the terms are kept alive in `norm_terms` (ids of dead terms are re-used)."""
+    terms = [toz3(x, want_real=True) for x in xs]
+    key = tuple(t.get_id() for t in terms)
+    world(I).__dict__.setdefault("norm_terms", {}).setdefault(key, terms)
+    return key
+
+
 def _norm_of(I, xs):
     """Euclidean norm of a list of entries.  The norm is a FUNCTION of its argument: the same entries (same terms) give
     the same value on a path (one Skolem constant per distinct argument list), so that a specification which mentions
@@ -801,24 +809,29 @@ def _norm_of(I, xs):
     if not any(isinstance(x, SV) for x in xs):
         return BM.mhypot(I, *xs)
     cache = world(I).__dict__.setdefault("norms", {})
-    key = tuple(toz3(x, want_real=True).get_id() for x in xs)
+    key = _norm_key(I, xs)
     if key not in cache:
-        # the norm is even: |-v| = |v| (same value for the negated argument list)
-        neg = tuple(z3.simplify(-toz3(x, want_real=True)).get_id() for x in xs)
-        cache[key] = cache[neg] if neg in cache else BM.mhypot(I, *xs)
+        if getattr(world(I), "abstract_norms", False):
+            # only `norm is a non-negative function of its argument` is used (contracts that compare norms with each other and
+            # with kernel radii but never look inside them): fewer non-linear facts, same proofs
+            h = I.eng.fresh_real("norm")
+            I.eng.assume(compare(">=", h, 0))
+            cache[key] = h
+        else:
+            cache[key] = BM.mhypot(I, *xs)
     return cache[key]
 
 
 def norm_of_difference(I, a, b):
-    """|a - b| for coordinate sequences, as numpy computes it (entry-wise difference, then the norm)."""
+    """|a - b| for coordinate sequences, as numpy computes it (entry-wise difference, then the norm); |a - b| = |b - a|."""
     a, b = list(a), list(b)
     cache = world(I).__dict__.setdefault("norms", {})
     fwd = [arith("-", x, y) for x, y in zip(a, b)]
     rev = [arith("-", y, x) for x, y in zip(a, b)]
-    kf = tuple(toz3(x, want_real=True).get_id() for x in fwd)
-    kr = tuple(toz3(x, want_real=True).get_id() for x in rev)
-    if kf not in cache and kr in cache and any(isinstance(x, SV) for x in fwd):
-        cache[kf] = cache[kr]  # |a - b| = |b - a|
+    if any(isinstance(x, SV) for x in fwd):
+        kf, kr = _norm_key(I, fwd), _norm_key(I, rev)
+        if kf not in cache and kr in cache:
+            cache[kf] = cache[kr]
     return _norm_of(I, fwd)
 
 
